@@ -91,6 +91,11 @@ Frags == <<"x := import(\"m\")", "x := import(\"m\"); undefinedvar", "return imp
            "for a, b, c in [1] {}", "try { return import(\"m\") } finally { undefinedvar }",
            "global gx; undefinedvar", "return gx", "gx = 1; return gx", "x := len([]); undefinedvar", "y, len := [1, 2]; return [y, len]">>
 
+(* Part "bytesoup": every byte string up to MaxLen over the bytes that drive the scanner's own states (comment and
+   string delimiters, carriage return, backslash, NUL, a byte that is no UTF-8, a letter, a digit): the scanner sees
+   bytes, not tokens *)
+SoupBytes == <<47, 42, 13, 10, 34, 96, 39, 92, 97, 48, 32, 0, 255, 35, 33, 46, 101, 120, 95>>   \* / * CR LF " ` ' \ a 0 sp NUL 0xff # ! . e x _
+
 VARIABLES c, ph
 vars == <<c, ph>>
 \* nesting depth of expressions / statements: no operand width limits it, the compiler's and the optimizer's own
@@ -102,6 +107,7 @@ Init == ph = 0 /\ (IF Part = "limits"
                         \/ c \in [r : {"depth"}, d : Depths, nest : {"main", "function"}, form : NestKinds]
                    ELSE IF Part = "near" THEN c \in [d : 1..Len(Skel), e1 : EditSet, e2 : {NoEdit}] /\ EditOK(Skel[c.d], c.e1)
                    ELSE IF Part = "evalseq" THEN c \in [n : 0..MaxLen, s : [1..MaxLen -> 1..Len(Frags)]]
+                   ELSE IF Part = "bytesoup" THEN c \in [n : 0..MaxLen, s : [1..MaxLen -> 1..Len(SoupBytes)]]
                    ELSE c \in [n : 0..MaxLen, s : [1..MaxLen -> 1..NT]])
 Judge == ph = 0 /\ ph' = 1 /\ UNCHANGED c
 \* the second edit is a step (TLC computes initial states single-threaded)
@@ -110,7 +116,7 @@ Edit2 == /\ ph = 0 /\ Part = "near" /\ MaxLen >= 2 /\ c.e1.t # 0
          /\ ph' = 1
 Next == Judge \/ Edit2
 Spec == Init /\ [][Next]_vars
-Canon == Part \in {"soup", "evalseq"} => \A i \in (c.n + 1)..MaxLen : c.s[i] = 1
+Canon == Part \in {"soup", "evalseq", "bytesoup"} => \A i \in (c.n + 1)..MaxLen : c.s[i] = 1
 \* the capacity table is monotone: one more than the capacity never fits
 Monotone == (ph = 1 /\ Part = "limits" /\ c.r # "depth") => (Predict(c.r, Capacity(c.r)) = "ok" /\ Predict(c.r, Capacity(c.r) + 1) = "error")
 Export == (ph = 1 /\ Canon) =>
@@ -119,5 +125,6 @@ Export == (ph = 1 /\ Canon) =>
                                   ELSE [k |-> "limit", r |-> c.r, n |-> Capacity(c.r) + c.d, nest |-> c.nest, form |-> c.form, pred |-> Predict(c.r, Capacity(c.r) + c.d)])
                             ELSE IF Part = "near" THEN [k |-> "near", s |-> Edit(Edit(Skel[c.d], c.e1), c.e2), v |-> (c.e2.t = 0)]   \* v: compile under every variant (single edits only)
                             ELSE IF Part = "evalseq" THEN [k |-> "evalseq", s |-> [i \in 1..c.n |-> Frags[c.s[i]]]]
+                            ELSE IF Part = "bytesoup" THEN [k |-> "bytesoup", b |-> [i \in 1..c.n |-> SoupBytes[c.s[i]]]]
                             ELSE [k |-> "soup", s |-> [i \in 1..c.n |-> Tokens[c.s[i]]]])>>, IOEnv.OUT)
 =============================================================================
